@@ -99,8 +99,8 @@ Definition served_of (l : list (N * N)) (s : N) : N :=
 Definition set_served (l : list (N * N)) (s m : N) : list (N * N) :=
   (s, m) :: filter (fun x => negb (fst x =? s)) l.
 
-Definition gs := gstep rapply ([] : rsm) (next_id (W := N)).
-Definition store_of (g : gstate rcmd rresp rsm) (s : N) : rstore := snd (get_store (([] : rsm)) g s).
+Definition gs := gstep rapply (next_id (W := N)).
+Definition store_of (g : gstate rcmd rresp rsm) (s : N) : rstore := snd (get_store g s).
 
 Definition out_matches (o : call_out) (p : pobs) : bool :=
   match o, p with
@@ -113,8 +113,8 @@ Definition head_out (g : gstate rcmd rresp rsm) : call_out :=
   match g_outs g with (_, o) :: _ => o | [] => ORegionError end.
 
 Definition predicted (g : gstate rcmd rresp rsm) (w : N) : option (option rresp) :=
-  match find (fun x => k_w (snd x) =? w) (completions g) with
-  | Some (_, k) => Some (res_to_o (ap_res (k_by k)))
+  match find (fun k => k_w k =? w) (flat_map (completions g) [1; 2; 3]) with
+  | Some k => Some (res_to_o (ap_res (k_by k)))
   | None => None
   end.
 
@@ -188,7 +188,7 @@ Definition reads_consistent (evs : list oev) : bool :=
                     end) evs.
 
 Definition replay (evs : list oev) : rstate :=
-  fold_left rstep evs {| r_g := ginit; r_ok := true; r_served := []; r_cmds := [] |}.
+  fold_left rstep evs {| r_g := ginit ([] : rsm); r_ok := true; r_served := []; r_cmds := [] |}.
 
 (** every waiter that the model completes and whose call returned was compared;
     conversely a call that returned success must have a model completion *)
